@@ -28,7 +28,7 @@ BASE = datetime(2024, 3, 1, 12, 0, 0)
 def bounds(tier):
     if tier == "quick":
         return "1-step programs on 3x3, 3x2, 2x2x2 (scalar/vector, single/series of 3 with dates, relative times or neither); all 2-step programs on 2x2 and 2x1x2; ROI bounds symbolic (all non-empty ranges, open ends, corners up to one voxel outside, concretised by solver-guided case split); stack/append of 2..3 images"
-    return "1-step programs up to 4x4 / 3x2x3 with series of 4; all 2-step programs on 3x3, 2x2x2, 2x2, 2x1x2; all 3-step and four 4-step programs on 2x2 and 2x1x2; stack/append of 2..5 images"
+    return "1-step programs up to 4x4 / 3x2x3 with series of 4; all 2-step spatial programs on 3x2, 2x2x2, 2x2, 2x1x2 and all 2-step series programs on 3x2, 2x2, 2x1x2; every 8th 3-step program and two 4-step programs on 2x2; stack/append of 2..5 images"
 
 
 def configs(tier):
@@ -65,29 +65,35 @@ def configs(tier):
                     continue
                 ext(g, g["dim"] == 3, 3, "dates" if g["dim"] == 2 else "times", p)
     else:
+        # sized by path counts (one path per distinct ROI case): ~25 paths/s on 16 cores
         geoms = big + [dict(dim=2, shape=[4, 4]), dict(dim=2, shape=[1, 4]), dict(dim=3, shape=[3, 2, 3])]
         for g in geoms:
             for vector in (False, True):
+                if vector and g["shape"] in ([4, 4], [3, 2, 3]):
+                    continue
                 for p in spatial:
                     ext(g, vector, 0, "none", [p])
                 for timeinfo in ("dates", "times", "none"):
                     for p in STEPS:
+                        if p in spatial and (timeinfo != "dates" or g["shape"] in ([4, 4], [3, 2, 3])):
+                            continue
                         ext(g, vector, 4, timeinfo, [p])
-        for g in big[:1] + big[2:] + tiny:
+        # all two-step programs: spatial pairs on 3x2 and 2x2x2 (besides the tiny grids), series programs on 3x2
+        for g in (big[1], big[2]) + tuple(tiny):
             for p in two_sp:
                 ext(g, False, 0, "none", p)
+        for g in (big[1],) + tuple(tiny):
             for timeinfo, vector in (("dates", False), ("times", True)):
                 for p in two_series:
+                    if p[0] in spatial and p[1] in spatial:
+                        continue
                     ext(g, vector, 3, timeinfo, p)
-        for g in tiny:
-            for p in itertools.product(STEPS, repeat=3):
-                p = list(p)
-                if any(p[i] == "time_slice" and p[j] in temporal for i in range(3) for j in range(i + 1, 3)):
-                    continue
-                ext(g, False, 3, "dates", p)
-            for p in (["sub_slices", "time_interval", "sub_voxels", "time_slice"], ["time_interval", "sub_coords", "time_interval", "sub_slices"], ["sub_coords", "sub_slices", "time_interval", "time_interval"], ["time_interval", "time_interval", "sub_voxels", "sub_coords"]):
-                ext(g, False, 4, "times", p)
-                ext(g, True, 4, "dates", p)
+        # every 8th three-step program on 2x2, four 4-step programs with two temporal steps on 2x2
+        three = [list(p) for p in itertools.product(STEPS, repeat=3) if not any(p[i] == "time_slice" and p[j] in temporal for i in range(3) for j in range(i + 1, 3))]
+        for p in three[::8]:
+            ext(tiny[0], False, 3, "dates", p)
+        for p in (["time_interval", "sub_slices", "time_slice", "sub_voxels"], ["time_interval", "sub_coords", "time_interval", "sub_slices"]):
+            ext(tiny[0], False, 4, "times", p)
     # series assembly
     for g in (big[:2] + tiny[1:] if quick else big + tiny):
         for vector in (False, True):
